@@ -466,6 +466,17 @@ class IRGen:
                     n += 1
         if n:
             self.note("quantization_annotations", n)
+        # an EMPTY annotation dict (falsy: to_proto writes nothing for it).  Separate stream again.
+        rng3 = random.Random(f"quant-empty-{self.k}")
+        if rng3.random() < 0.3:
+            k = 0
+            for g in sc.iter_graph_tree(m.graph):
+                for v in list(g.inputs) + [o for nd in g for o in nd.outputs]:
+                    if v.name and "quant_parameter_tensor_names" not in v.meta and rng3.random() < 0.3:
+                        v.meta["quant_parameter_tensor_names"] = {}
+                        k += 1
+            if k:
+                self.note("quantization_annotations_empty", k)
 
     def reload_and_edit_tensor_metadata(self, m):
         """sometimes: give tensors metadata, take the model through the proto once (its tensors are then backed
